@@ -14,7 +14,7 @@ produces when it runs alone (client-side bytes and origin-side bytes, ports norm
 import random
 from typing import Any, Dict, List, Optional, Tuple
 
-from rig import env, driver, shim, monitors, h11util, conv, resolver, gen_http as G
+from rig import env, driver, shim, monitors, h11util, conv, resolver, adversary, gen_http as G
 
 env.quiet_logging()
 
@@ -161,24 +161,11 @@ def baseline(kind: str, mode: str) -> Dict[str, bytes]:
     return _base[key]
 
 
-ROLE_SCRIPTS = ['forward', 'forward-post', 'tunnel', 'web', 'reverse']
 
 
-def adversary_script(role: str, hp: bytes) -> bytes:
-    if role == 'forward':
-        return b'GET http://%s/adv HTTP/1.1\r\nHost: %s\r\nX-Req-Id: adv\r\n\r\n' % (hp, hp)
-    if role == 'forward-post':
-        return (b'POST http://%s/adv HTTP/1.1\r\nHost: %s\r\nX-Req-Id: adv\r\nTransfer-Encoding: chunked\r\n\r\n' % (hp, hp)
-                + b'5\r\nhello\r\n6\r\n world\r\n0\r\n\r\n')
-    if role == 'tunnel':
-        return b'CONNECT %s HTTP/1.1\r\nHost: %s\r\n\r\n' % (hp, hp) + b'tunnel-payload-' * 20
-    if role == 'web':
-        return b'GET /wa/adv HTTP/1.1\r\nHost: w.test\r\nX-Req-Id: adv\r\n\r\nGET /wa/adv2 HTTP/1.1\r\nHost: w.test\r\nX-Req-Id: adv2\r\n\r\n'
-    return b'GET /ra/adv HTTP/1.1\r\nHost: r.test\r\nX-Req-Id: adv\r\n\r\nPOST /ra/adv2 HTTP/1.1\r\nHost: r.test\r\nX-Req-Id: adv2\r\nContent-Length: 3\r\n\r\nabc'
-
-
-UPSTREAM_BEHAVIOURS = ['refuse', 'unresolvable', 'reset-on-accept', 'close-on-accept', 'garbage', 'bad-chunk-size', 'bad-content-length',
-                       'close-mid-body', 'reset-mid-body', 'huge-then-reset']
+adversary_script = adversary.adversary_script
+ROLE_SCRIPTS = adversary.ROLE_SCRIPTS
+UPSTREAM_BEHAVIOURS = adversary.UPSTREAM_BEHAVIOURS
 
 
 def run_case(case: Dict[str, Any]) -> Dict[str, Any]:
@@ -204,146 +191,17 @@ def run_case(case: Dict[str, Any]) -> Dict[str, Any]:
         c04._routes.update({'A': None, 'B': None, 'A2': None})
         resolver.reset({})
         # ---- adversary set-up ----
-        role = adv.get('role', 'forward')
-        aorigin = None
-        behaviour = adv.get('upstream', 'ok')
-        hp = b'127.0.0.1:9'
-        if behaviour == 'refuse':
-            hp = b'127.0.0.1:%d' % refused_port('127.0.0.1')
-        elif behaviour == 'unresolvable':
-            hp = b'no-such-host-%d.test:80' % case['i']
-        else:
-            aorigin = rig.add_origin('127.0.%d.%d' % (rng.randint(0, 250), rng.randint(2, 250)))
-            hp = aorigin.hostport
-            if adv['class'] == 'upstream-never-reads':
-                import socket as _s
-                aorigin.lsock.setsockopt(_s.SOL_SOCKET, _s.SO_RCVBUF, 4096)     # inherited by the accepted connection
-        aorigin2 = None
-        if role == 'reverse':
-            c04._routes['A'] = b'http://%s/pa' % hp
-            if adv['class'] == 'reverse-switch':
-                # route /ra/ has two upstream URLs: consecutive requests of one client connection get routed to either,
-                # so the connection keeps closing one upstream socket and opening another while it stays alive
-                aorigin2 = rig.add_origin('127.0.%d.%d' % (rng.randint(0, 250), rng.randint(2, 250)))
-                c04._routes['A2'] = b'http://%s/pa2' % aorigin2.hostport
-        canary1 = Canary(rig, kind, rng, 'concurrent') if case.get('concurrent', True) else None
-        aclient = rig.add_client('tcp')
-        a_peer = aclient.sock.getsockname()
-        a_origin_addr = (aorigin.host, aorigin.port) if aorigin is not None else None
+        box: Dict[str, Any] = {}
 
-        def is_adversary_socket(k: str, sock: Any, addr: Any) -> bool:
-            if k == 'connect':
-                return a_origin_addr is not None and addr is not None and (addr[0], addr[1]) == a_origin_addr
-            try:
-                pn = sock.getpeername()
-            except OSError:
-                return False
-            return pn == a_peer or (a_origin_addr is not None and (pn[0], pn[1]) == a_origin_addr)
-        shim.S.fault_filter = is_adversary_socket
-        if adv['class'] == 'fault':
-            shim.set_fault(adv['kind'], adv['index'], adv['errno'])
-        # what the adversary's client sends
-        autos: List[conv.AutoOrigin] = []
-        if adv['class'] == 'reverse-switch':
-            resp = lambda req, name: [b'HTTP/1.1 200 OK\r\nContent-Length: 2\r\n\r\nok']     # noqa: E731
-            autos = [conv.AutoOrigin(aorigin, 'A1', resp), conv.AutoOrigin(aorigin2, 'A2', resp)]
-        if adv['class'] == 'upstream-never-reads':
-            up = G.coded(b'Z', adv.get('upload', 4000000))
-            if role == 'tunnel':
-                data = b'CONNECT %s HTTP/1.1\r\nHost: %s\r\n\r\n' % (hp, hp) + up
-            elif role == 'reverse':
-                data = b'POST /ra/up HTTP/1.1\r\nHost: r.test\r\nContent-Length: %d\r\n\r\n' % len(up) + up
-            else:
-                data = b'POST http://%s/up HTTP/1.1\r\nHost: %s\r\nContent-Length: %d\r\n\r\n' % (hp, hp, len(up)) + up
-        elif adv['class'] == 'bytes':
-            data = c06.make_input(random.Random('c05b:%s:%s' % (case['seed'], case['i'])), adv['c06'], hp)
-        else:
-            data = adversary_script(role, hp)
-        cut = adv.get('prefix')
-        if cut is not None:
-            data = data[:cut % (len(data) + 1)]
-        pieces = conv.cut_bytes(rng, data, adv.get('ncuts', 1)) if data else []
-        ending = adv.get('ending', 'close')
-        a_state = {'pi': 0, 'ended': False, 'oc': None, 'answered': False, 'quiet': 0}
-        big = G.coded(b'A', adv.get('resp_size', 3000))
-
-        def adversary_act() -> None:
-            st = a_state
-            if autos:
-                # keep-alive series: next request once the previous one was answered
-                aclient.pump()
-                for ao_ in autos:
-                    ao_.tick()
-                    for oc_ in ao_.conns:
-                        oc_.send_some()
-                n = responses_complete(bytes(aclient.rx))
-                if n >= 1 and holes:
-                    while holes:
-                        _os.close(holes.pop())
-                if st['pi'] <= n and st['pi'] < adv.get('requests', 8):
-                    aclient.send(b'GET /ra/s%d HTTP/1.1\r\nHost: r.test\r\nX-Req-Id: s%d\r\n\r\n' % (st['pi'], st['pi']))
-                    st['pi'] += 1
-                elif n >= adv.get('requests', 8) or aclient.ended:
-                    st['ended'] = True          # and stays connected, silently (ending == 'silence') unless told otherwise
-                    if ending == 'close' and not aclient.closed:
-                        aclient.close()
-                return
-            aclient.pump(4096 if adv.get('slow_reader') else None) if not adv.get('never_reads') else None
-            # upstream side of the adversary
-            if aorigin is not None and adv['class'] == 'upstream-never-reads':
-                if st['oc'] is None:
-                    st['oc'] = aorigin.accept()     # accepted, never read from
-                st['answered'] = True
-            elif aorigin is not None and not st['answered']:
-                if st['oc'] is None:
-                    st['oc'] = aorigin.accept()
-                oc = st['oc']
-                if oc is not None:
-                    oc.pump()
-                    if behaviour == 'reset-on-accept':
-                        oc.reset_close()
-                        st['answered'] = True
-                    elif behaviour == 'close-on-accept':
-                        oc.close()
-                        st['answered'] = True
-                    elif oc.rx:
-                        if behaviour == 'garbage':
-                            oc.send(bytes(rng.getrandbits(8) for _ in range(300)))
-                        elif behaviour == 'bad-chunk-size':
-                            oc.send(b'HTTP/1.1 200 OK\r\nTransfer-Encoding: chunked\r\n\r\nZZ\r\nhello\r\n-3\r\nxx\r\n0\r\n\r\n')
-                        elif behaviour == 'bad-content-length':
-                            oc.send(b'HTTP/1.1 200 OK\r\nContent-Length: -5\r\nContent-Length: abc\r\n\r\nhello')
-                        elif behaviour == 'close-mid-body':
-                            oc.send(b'HTTP/1.1 200 OK\r\nContent-Length: 100000\r\n\r\n' + big[:1000])
-                            oc.close()
-                        elif behaviour == 'reset-mid-body':
-                            oc.send(b'HTTP/1.1 200 OK\r\nContent-Length: 100000\r\n\r\n' + big[:1000])
-                            oc.reset_close()
-                        elif behaviour == 'huge-then-reset':
-                            oc.send(b'HTTP/1.1 200 OK\r\nContent-Length: %d\r\n\r\n' % (len(big) * 50) + big * 20)
-                            oc.reset_close()
-                        elif role == 'tunnel':
-                            oc.send(b'echo:' + bytes(oc.rx[:50]))
-                        else:
-                            oc.send(b'HTTP/1.1 200 OK\r\nContent-Length: %d\r\n\r\n' % len(big) + big)
-                        st['answered'] = True
-            # client side of the adversary
-            if st['pi'] < len(pieces):
-                n = aclient.send(pieces[st['pi']])
-                if n < 0 or n >= len(pieces[st['pi']]):
-                    st['pi'] += 1
-                elif n > 0:
-                    pieces[st['pi']] = pieces[st['pi']][n:]
-            elif not st['ended']:
-                st['quiet'] += 1
-                if st['quiet'] >= adv.get('linger', 3):
-                    if ending == 'close':
-                        aclient.close()
-                    elif ending == 'reset':
-                        aclient.reset_close()
-                    elif ending == 'half-close':
-                        aclient.shutdown_wr()
-                    st['ended'] = True
+        def start_canary() -> None:
+            box['canary1'] = Canary(rig, kind, rng, 'concurrent') if case.get('concurrent', True) else None
+        A = adversary.Adversary(rig, adv, rng, case, c04._routes,
+                                make_bytes=(lambda hp_: c06.make_input(random.Random('c05b:%s:%s' % (case['seed'], case['i'])), adv['c06'], hp_))
+                                if adv['class'] == 'bytes' else None, holes=holes, before_client=start_canary)
+        canary1 = box['canary1']
+        adversary_act = A.act
+        a_state = A.state
+        aorigin = A.origin
         # ---- interleave ----
         import time as _t
         guard = 0
@@ -421,8 +279,7 @@ def run_case(case: Dict[str, Any]) -> Dict[str, Any]:
             'sample': {'case': case, 'schedule_head': ''.join(sched[:60])}}
 
 
-ERRNOS = {'recv': ['ECONNRESET', 'ETIMEDOUT', 'EHOSTUNREACH'], 'send': ['EPIPE', 'ECONNRESET'],
-          'connect': ['ECONNREFUSED', 'ETIMEDOUT', 'ENETUNREACH', 'EHOSTUNREACH']}
+ERRNOS = adversary.ERRNOS
 CANARIES = ['forward', 'tunnel', 'web', 'reverse']
 
 
